@@ -10,7 +10,7 @@ import BfeVerif.C28.Proofs
 namespace BfeVerif.C28
 
 def Resync (ka : Bool) (segs : List Seg) (scs : List Script) : Prop :=
-  ∀ e ∈ (serve ka segs scs).starts, rfcStart segs e.2 = some e.1
+  ∀ e ∈ (serve ka segs scs).starts, rfcStart segs (contList segs scs) e.2 = some e.1
 
 /-- **C28_resync (partial)**: for every stream without an undecodable chunked body and every handler
     script, each request the loop hands to the handler starts at the RFC end of its predecessor
@@ -29,7 +29,7 @@ theorem C28_witness_bad_chunk :
     ¬ (∀ ka segs scs, clientOK segs scs = true → Resync ka segs scs) := by
   intro h
   have := h true
-    [.req ⟨2, true, 0, .no, true, .bad []⟩, .req ⟨0, true, 0, .no, true, .none⟩] [] (by decide)
+    [.req ⟨2, true, 0, .no, true, .bad [], false⟩, .req ⟨0, true, 0, .no, true, .none, false⟩] [] (by decide)
     (61, 1) (by decide)
   revert this
   decide
@@ -48,6 +48,36 @@ theorem C28_order_once (ka : Bool) (segs : List Seg) (scs : List Script) :
   obtain ⟨n, hn⟩ := serveFrom_order ka segs 0 0 scs {}
   exact ⟨n, by simpa [serve, List.range_eq_range'] using hn⟩
 
+/-- **C28 over whole pipelined transcripts.**  For every connection (any list of pipelined messages —
+    requests with Content-Length / chunked bodies and trailers, HEAD, `Expect` sent, omitted or waited
+    for, garbage, over-long URI / header — and any handler scripts) without an undecodable chunked body
+    and with a conformant client there is a handled prefix of `n` messages such that
+    * exactly the messages 0 … n-1 are handed to the handler, in this order, each once, and each
+      starts at its RFC 7230 start offset (`rfcStart`),
+    * the bytes sent to the client are, in order, one `serveOne` block per handled request (each block:
+      an optional `100 Continue` and at most one final response) followed by nothing or by the single
+      error reply (400 / 413 / 414 / 417) to message `n`, after which nothing more is read. -/
+theorem C28_transcript_partial (ka : Bool) (segs : List Seg) (scs : List Script)
+    (hnb : noBad segs = true) (hc : clientOK segs scs = true) :
+    ∃ n tail, n ≤ segs.length ∧
+      (serve ka segs scs).starts.map Prod.snd = List.range n ∧
+      (∀ e ∈ (serve ka segs scs).starts, rfcStart segs (contList segs scs) e.2 = some e.1) ∧
+      (serve ka segs scs).bytes = blocks ka n segs scs ++ tail ∧
+      TailOk ka (segs.drop n) tail := by
+  obtain ⟨n, tail, hn, hs, hb, ht⟩ := serveFrom_transcript ka segs 0 0 scs {}
+  exact ⟨n, tail, hn, by simpa [serve, List.range_eq_range'] using hs,
+    C28_resync_partial ka segs scs hnb hc, by simpa [serve] using hb, ht⟩
+
+/-- The order / once / in-order-bytes part of the transcript statement holds for EVERY stream and
+    client (also with undecodable bodies and misbehaving clients); only the offsets need the hypotheses. -/
+theorem C28_transcript_order (ka : Bool) (segs : List Seg) (scs : List Script) :
+    ∃ n tail, n ≤ segs.length ∧
+      (serve ka segs scs).starts.map Prod.snd = List.range n ∧
+      (serve ka segs scs).bytes = blocks ka n segs scs ++ tail ∧
+      TailOk ka (segs.drop n) tail := by
+  obtain ⟨n, tail, hn, hs, hb, ht⟩ := serveFrom_transcript ka segs 0 0 scs {}
+  exact ⟨n, tail, hn, by simpa [serve, List.range_eq_range'] using hs, by simpa [serve] using hb, ht⟩
+
 /-- No request is read after a message whose end the loop's own reader reports as an error reply
     (400 / 413 / 414): the loop stops. -/
 theorem C28_stop_after_error (ka : Bool) (pos i : Nat) (rest : List Seg) (scs : List Script) (o : Out) :
@@ -59,12 +89,23 @@ theorem C28_stop_after_error (ka : Bool) (pos i : Nat) (rest : List Seg) (scs : 
 /-! Non-vacuity: a three-request pipelined stream (POST with chunked body + trailer read partly by the
     handler, an Expect request whose body is omitted, a GET) satisfies the hypotheses; the first two
     are handled, and the loop closes after the unanswered Expect. -/
-example : noBad [.req ⟨2, true, 0, .no, true, .chunked [3, 4] true⟩, .req ⟨2, true, 0, .cont, false, .len 28⟩,
-                 .req ⟨0, true, 0, .no, true, .none⟩] = true := by decide
-example : clientOK [.req ⟨2, true, 0, .no, true, .chunked [3, 4] true⟩, .req ⟨2, true, 0, .cont, false, .len 28⟩,
-                    .req ⟨0, true, 0, .no, true, .none⟩] [⟨.part 2, .respond 200 false false true 2 0⟩] = true := by decide
-example : (serve true [.req ⟨2, true, 0, .no, true, .chunked [3, 4] true⟩, .req ⟨2, true, 0, .cont, false, .len 28⟩,
-                       .req ⟨0, true, 0, .no, true, .none⟩] [⟨.part 2, .respond 200 false false true 2 0⟩]).starts
+example : noBad [.req ⟨2, true, 0, .no, true, .chunked [3, 4] true, false⟩, .req ⟨2, true, 0, .cont, false, .len 28, true⟩,
+                 .req ⟨0, true, 0, .no, true, .none, false⟩] = true := by decide
+example : clientOK [.req ⟨2, true, 0, .no, true, .chunked [3, 4] true, false⟩, .req ⟨2, true, 0, .cont, false, .len 28, true⟩,
+                    .req ⟨0, true, 0, .no, true, .none, false⟩] [⟨.part 2, .respond 200 false false true 2 0⟩] = true := by decide
+example : (serve true [.req ⟨2, true, 0, .no, true, .chunked [3, 4] true, false⟩, .req ⟨2, true, 0, .cont, false, .len 28, true⟩,
+                       .req ⟨0, true, 0, .no, true, .none, false⟩] [⟨.part 2, .respond 200 false false true 2 0⟩]).starts
           = [(0, 0), (87, 1)] := by decide
+
+/-! Waiting client: the body (and everything after it) is held back until the server answers.  The
+    hypotheses are met, and the loop closes after the unanswered Expect — nothing after message 0 is read. -/
+example : clientOK [.req ⟨2, true, 0, .cont, false, .len 28, true⟩, .req ⟨0, true, 0, .no, true, .none, false⟩]
+                   [⟨.no, .respond 200 false false true 2 0⟩] = true := by decide
+example : (serve true [.req ⟨2, true, 0, .cont, false, .len 28, true⟩, .req ⟨0, true, 0, .no, true, .none, false⟩]
+                      [⟨.no, .respond 200 false false true 2 0⟩]).starts = [(0, 0)] := by decide
+/-- … and when the handler asks for the body (`100 Continue` is sent) the waiting client sends it and
+    the next request is read at its RFC start 71 + 28. -/
+example : (serve true [.req ⟨2, true, 0, .cont, false, .len 28, true⟩, .req ⟨0, true, 0, .no, true, .none, false⟩]
+                      [⟨.all, .respond 200 false false true 2 0⟩]).starts = [(0, 0), (99, 1)] := by decide
 
 end BfeVerif.C28
